@@ -254,9 +254,17 @@ fn spawn_replica(cl: &Arc<Cluster>, name: &str, inc: u32, budget: u32, chain: Ve
     let (rtx, rx) = mpsc::channel::<Ret>();
     let cl2 = cl.clone();
     std::thread::spawn(move || {
-        let rt = tokio::runtime::Builder::new_current_thread().enable_all().build().expect("tokio runtime");
-        // timeouts are far beyond anything the fake nodes do: every RPC outcome (reply, error,
-        // "timeout") is decided by the scenario, never by the wall clock
+        // Every RPC outcome (reply, error, "timeout") is decided by the scenario, never by the wall
+        // clock: the runtime's clock is paused and - because a blocking task is kept parked for
+        // the life of the replica, which inhibits tokio's auto-advance - never moves, so neither
+        // the adapter's node_timeout nor the redis crate's built-in 500 ms response / 1 s
+        // connection timeouts of multiplexed connections can fire while a request waits at a
+        // fake node for its fate.
+        let rt = tokio::runtime::Builder::new_current_thread().enable_all().start_paused(true).build().expect("tokio runtime");
+        let (park_tx, park_rx) = mpsc::channel::<()>();
+        rt.spawn_blocking(move || {
+            let _ = park_rx.recv();
+        });
         let adapter = RedisLeaderLeaseAdapter::new(
             urls,
             LEASE_KEY.to_string(),
@@ -283,6 +291,7 @@ fn spawn_replica(cl: &Arc<Cluster>, name: &str, inc: u32, budget: u32, chain: Ve
         }
         // a crash / the end of a walk: no graceful lease release (Drop would try one)
         std::mem::forget(adapter);
+        drop(park_tx);
         cl2.notify();
     });
     Replica { name: name.to_string(), inc, tx, rx, busy: false, call_first_id: 0, done: None, chain, made, todo: Todo::None }
@@ -629,6 +638,9 @@ fn run(args: &Args) -> Vec<String> {
     let budget = args.num("budget", 0) as u32;
     let nodes = args.num("nodes", 3) as usize;
     let replicas: Vec<String> = args.get("replicas").unwrap_or("A,B").split(',').map(|s| s.to_string()).collect();
+    // test aid: let every step wait this long first (requests then wait at the fake nodes far
+    // beyond the client library's built-in timeouts; the outcome must not change)
+    let delay = Duration::from_millis(args.num("delay-ms", 0));
     let mut t = Trace::create(args.req("out"));
     let mut errs = Vec::new();
     for w in walks {
@@ -637,6 +649,9 @@ fn run(args: &Args) -> Vec<String> {
         for s in &w.steps {
             if rig.broken {
                 break;
+            }
+            if !delay.is_zero() {
+                std::thread::sleep(delay);
             }
             match s.name() {
                 "Start" => rig.start(rig.idx(s.str_("r"))),
@@ -713,6 +728,14 @@ fn random(args: &Args) -> Vec<String> {
         let mut rig = Rig::new(&replicas, nodes, budget, Mode::Auto, 2);
         // personality of this walk: how hostile the network is
         let hostile = rng.below(4); // 0 = calm .. 3 = very lossy
+        // every third walk: standing asymmetric partitions (each replica cannot reach one node),
+        // the setting in which orphaned sub-quorum writes, repair and blind successors meet
+        let mut cut = vec![vec![false; nodes]; replicas.len()];
+        if budget == 0 && rng.below(3) == 0 {
+            for c in cut.iter_mut() {
+                c[rng.below(nodes as u64) as usize] = true;
+            }
+        }
         let mut lost_nodes: Vec<usize> = Vec::new();
         for _ in 0..len {
             if rig.broken {
@@ -724,7 +747,7 @@ fn random(args: &Args) -> Vec<String> {
                 if rig.reps[ri].chain.len() >= max_h {
                     continue;
                 }
-                production_step(&mut rig, ri, &mut rng, hostile);
+                production_step(&mut rig, ri, &mut rng, hostile, &cut);
             } else if x < 76 {
                 let n = rng.below(nodes as u64) as usize;
                 rig.expire(n);
@@ -741,7 +764,7 @@ fn random(args: &Args) -> Vec<String> {
                 }
             } else if x < 96 {
                 let ri = rng.below(rig.reps.len() as u64) as usize;
-                set_switches(&rig, ri, &mut rng, hostile);
+                set_switches(&rig, ri, &mut rng, hostile, &cut);
                 rig.stepdown(ri);
                 rig.cl.clear_switches();
             } else {
@@ -760,11 +783,12 @@ fn random(args: &Args) -> Vec<String> {
     errs
 }
 
-fn set_switches(rig: &Rig, ri: usize, rng: &mut Rng, hostile: u64) {
+fn set_switches(rig: &Rig, ri: usize, rng: &mut Rng, hostile: u64, cut: &[Vec<bool>]) {
     let c = rig.client(ri);
-    // per node: sometimes a partition for the whole call, otherwise independent fates per request
+    // per node: a standing partition of this walk, sometimes a partition for the whole call,
+    // otherwise independent fates per request
     for n in 0..rig.cl.node_count() {
-        let partitioned = rng.chance(hostile, 8);
+        let partitioned = cut[ri][n] || rng.chance(hostile, 8);
         for _ in 0..12 {
             let f = if partitioned {
                 Fate::Drop
@@ -784,8 +808,8 @@ fn set_switches(rig: &Rig, ri: usize, rng: &mut Rng, hostile: u64) {
 }
 
 /// One iteration of the production loop of replica `ri`, as MainTask + importer run it.
-fn production_step(rig: &mut Rig, ri: usize, rng: &mut Rng, hostile: u64) {
-    set_switches(rig, ri, rng, hostile);
+fn production_step(rig: &mut Rig, ri: usize, rng: &mut Rng, hostile: u64, cut: &[Vec<bool>]) {
+    set_switches(rig, ri, rng, hostile, cut);
     rig.start(ri);
     match rig.reps[ri].todo.clone() {
         Todo::Produce(_) => {
